@@ -65,7 +65,18 @@ def plan(rng, tier):
         else:
             single.append(["pickle", rng.choice([0, 1, 2, 3, 4, 5])])
     return {"init": _num(rng), "clients": clients, "order": order,
-            "protocol": rng.choice([0, 1, 2, 3, 4, 5]), "single": single}
+            "protocol": rng.choice([0, 1, 2, 3, 4, 5]), "single": single,
+            # the counter is an instance of a subclass whose constructor
+            # takes something else first
+            "sub": rng.random() < 0.15}
+
+
+def _new_length(plan, v):
+    from BTrees.Length import Length
+    if plan.get("sub"):
+        from .. import subcls
+        return subcls.LabelledLength("counter", v)
+    return Length(v)
 
 
 def _concurrent(plan, order, ctx, tag):
@@ -74,7 +85,7 @@ def _concurrent(plan, order, ctx, tag):
     from BTrees.Length import Length
     st = SimStorage(plan["protocol"])
     c0 = SimConnection(st)
-    ln = Length(plan["init"])
+    ln = _new_length(plan, plan["init"])
     oid = c0.add(ln)
     c0.commit()
     conns = []
@@ -120,7 +131,9 @@ def _concurrent(plan, order, ctx, tag):
             raise Violation({"oracle": "length-seam"},
                             "resolve(%r,%r,%r) -> %r, want %r" % (
                                 rec["old"], rec["com"], rec["new"], oc, want))
-        sym = Length()._p_resolveConflict(rec["old"], rec["new"], rec["com"])
+        klass = type(_new_length(plan, 0))
+        sym = klass.__new__(klass)._p_resolveConflict(
+            rec["old"], rec["new"], rec["com"])
         if sym != want:
             raise Violation({"oracle": "length-seam-symmetry"},
                             "resolve not symmetric")
@@ -143,7 +156,7 @@ def _single(plan, ctx):
     c = SimConnection(st)
     cell = plan["init"]
     committed = cell
-    ln = Length(cell)
+    ln = _new_length(plan, cell)
     oid = c.add(ln)
     c.commit()
     for op in plan["single"]:
